@@ -170,3 +170,83 @@ func workerExitRule(c *core.Ctx, r *core.Report) {
 	}
 	r.Floor("worker loops around the iteration runner", n, 1)
 }
+
+// ownGoroutineRule is C04.R9: the user's iteration function runs on the goroutine of the pool worker that took the
+// request. Between the `go` that starts a worker and the call of the user function there is no second `go`: were the
+// body handed to a goroutine of its own, the worker could move on (a timeout, an early exit) while the body still
+// runs, and more than `concurrency` bodies would execute at once.
+func ownGoroutineRule(c *core.Ctx, r *core.Report) {
+	n := 0
+	for _, uc := range userCalls(c) {
+		if uc.Kind != "RunFn" || core.RelPkg(uc.Fn) != "internal/workers" {
+			continue
+		}
+		n++
+		// the largest number of `go` statements on a call chain ending at the user call
+		memo := map[*ssa.Function]int{}
+		onStack := map[*ssa.Function]bool{}
+		var where ssa.Instruction
+		var maxGo func(f *ssa.Function, depth int) int
+		maxGo = func(f *ssa.Function, depth int) int {
+			if v, ok := memo[f]; ok {
+				return v
+			}
+			if onStack[f] || depth <= 0 {
+				return 0
+			}
+			onStack[f] = true
+			defer delete(onStack, f)
+			best := 0
+			consider := func(in ssa.Instruction, caller *ssa.Function) {
+				if core.RelPkg(caller) != "internal/workers" {
+					// who starts the pools (the trigger's own goroutine, the run) is not part of the chain
+					return
+				}
+				g := maxGo(caller, depth-1)
+				if _, isGo := in.(*ssa.Go); isGo {
+					g++
+					if where == nil || g > 1 {
+						if g > 1 || where == nil {
+							where = in
+						}
+					}
+				}
+				if g > best {
+					best = g
+				}
+			}
+			for _, cs := range an.CallSitesOf(c, f) {
+				consider(cs, cs.Parent())
+			}
+			if f.Parent() != nil {
+				// a function literal: how the value made from it is used where it was made
+				an.Instrs(f.Parent(), func(in ssa.Instruction) {
+					mc, ok := in.(*ssa.MakeClosure)
+					if !ok || mc.Fn != ssa.Value(f) {
+						return
+					}
+					used := false
+					for _, ref := range an.Referrers(mc) {
+						if ci, isCall := ref.(ssa.CallInstruction); isCall && ci.Common().Value == ssa.Value(mc) {
+							used = true
+							consider(ci, f.Parent())
+						}
+					}
+					if !used {
+						consider(mc, f.Parent())
+					}
+				})
+			}
+			memo[f] = best
+			return best
+		}
+		g := maxGo(uc.Call.Parent(), 10)
+		key := core.FuncName(uc.Call.Parent()) + "#own-goroutine"
+		pos := an.Pos(c, uc.Call)
+		if where != nil && g > 1 {
+			pos = an.Pos(c, where)
+		}
+		r.Check(g <= 1, key, pos, "the iteration function is called on the worker's own goroutine (one `go`, the worker's, on every call chain)", sprintf("the iteration function is handed to a goroutine of its own (%d `go` statements on a call chain from the pool to the user call): the worker can move on while the body still runs, and more than `concurrency` iteration functions execute at once", g))
+	}
+	r.Floor("calls of the user's iteration function in internal/workers", n, 1)
+}
